@@ -399,6 +399,9 @@ func run(b *harness.B) {
 		c := chaingen.NewChain(net, rng)
 		r2 := b.SubRng(fmt.Sprint("c18", i))
 		c.OnAccepted = func(cs consensus.State, blk types.Block, bs consensus.V1BlockSupplement, kinds []string) {
+			if len(kinds) >= 3 {
+				b.Sample(chaingen.DescribeBlock(cs, blk, kinds))
+			}
 			if blk.V2 == nil {
 				return
 			}
